@@ -34,6 +34,8 @@ package chained_bft
 //@ func DefaultSaftyRules.CalVotesThreshold
 //@   property C14
 //@   requires sum_nonneg: sum >= 0
+//@   witness Input: input
+//@   witness Sum: sum
 //@   ensures  threshold: result == (input >= sum - (sum-1)/3 - 1)
 
 // countsAt(k): entry k of the certificate's signature list is a member of the
